@@ -52,8 +52,9 @@ def world_h1(alpn="http/1.1"):
 
 
 class Scenario:
-    def __init__(self, sid, pool_kwargs, calls, world=None, enc=None, big_cuts=False):
+    def __init__(self, sid, pool_kwargs, calls, world=None, enc=None, big_cuts=False, skip=()):
         self.id = sid
+        self.skip = set(skip)  # exploration strategies not applied to this scenario
         self.pool_kwargs = pool_kwargs
         self.calls = calls  # list of dicts for Call(**)
         self.world = world or world_h1
@@ -150,3 +151,27 @@ add(Scenario("h1-origins-host", dict(max_connections=2), [c("r1", "https://a.tes
 add(Scenario("h1-max1-early", dict(max_connections=1), [c("r1", A + "/early1", method="POST", headers=[(b"Content-Length", b"40")], content=[b"0123456789"] * 4), c("r2", A + "/2"), c("r3", A + "/3")]))
 add(Scenario("h1-max1-mixed-ends", dict(max_connections=1), [c("r1", A + "/big1", consume=("chunks", 2)), c("r2", A + "/close2"), c("r3", A + "/3"), c("r4", A + "/http10")]))
 add(Scenario("h1-max2-AAAB-mixed", dict(max_connections=2), [c("r1", A + "/1"), c("r2", A + "/big2", consume="none"), c("r3", A + "/3"), c("r4", B + "/4")]))
+
+
+# ---- pooled HTTP/2 connections (prior knowledge: http1=False, http2=True) ----------------
+def h2plan(req):
+    tok = req.token or b"?"
+    t = req.target or b"/"
+    spec = {"status": 200, "headers": [(b"x-tok", tok)], "body": b"body-of-" + tok}
+    if t.startswith(b"/clbad"):
+        # a server-side protocol violation the h2 library detects while reading
+        spec["headers"].append((b"content-length", b"99"))
+    return spec
+
+
+def world_h2():
+    from .peers import H2ServerPeer
+
+    return World(default=lambda rec: H2ServerPeer(plan=h2plan))
+
+
+H2 = dict(http1=False, http2=True)
+H2SKIP = ("cancel-native", "random")
+add(Scenario("h2-max1-AA", dict(max_connections=1, **H2), [c("r1", A + "/1"), c("r2", A + "/2")], world=world_h2, enc={"h2_origins": [0]}, skip=H2SKIP))
+add(Scenario("h2-max1-BAB", dict(max_connections=1, **H2), [c("r1", B + "/1", gates=("read",)), c("r2", A + "/2"), c("r3", B + "/3")], world=world_h2, enc={"h2_origins": [0, 1]}, skip=H2SKIP + ("cancel-scope",)))
+add(Scenario("h2-max1-AAB", dict(max_connections=1, **H2), [c("r1", A + "/1"), c("r2", A + "/2"), c("r3", B + "/3")], world=world_h2, enc={"h2_origins": [0, 1]}, skip=H2SKIP + ("cancel-scope",)))
